@@ -22,6 +22,7 @@
 #define vf_flags VF_X(_vf_flags)
 #define vf_introspect VF_X(_vf_introspect)
 #define vf_is_mp11 VF_X(_vf_is_mp11)
+#define vf_visit VF_X(_vf_visit)
 #define vf_probe VF_X(_vf_probe)
 #define vf_cnt VF_X(_vf_cnt)
 #define vf_reuse_moved_from VF_X(_vf_reuse_moved_from)
